@@ -357,6 +357,13 @@ static void exec_lattice(Plan const& p, Report& rep)
         ld w = 0;
         if (!call_weight(out.ranks[0], rec, rv, w)) continue;
         ld const val = rec.f * w;
+        if (!std::isfinite(val))
+        {
+            // normalised densities, positive weights, a finite jacobian: nothing here may be non-finite
+            rep.fail("C01", "non-finite-weight", key, fmt("call %llu (channel %u): value %.6Lg times weight %.6Lg",
+                (unsigned long long) rec.idx, rec.channel, rec.f, w));
+            return;
+        }
         mag += std::fabs(val);
         ++cnt;
         u64 const b = rec.idx / N;
